@@ -48,6 +48,8 @@ def _case(draw):
     if kind == "roundtrip":
         f = draw(L.reaction_file(nmax=10))
         f["lines"] = [ln for ln in f["lines"]]
+        # edit the network through the API between reading and writing
+        f["edit"] = draw(st.sampled_from(["none", "none", "remove+reindex", "reindex", "change-coefficients"]))
         return {"kind": "roundtrip", "file": f}
     c = draw(c05._case(nmax=10))
     c["kind"] = "export"
@@ -97,6 +99,17 @@ def roundtrip(case, failures, labels):
     net0 = c07.read_network(f)
     if any(r.reaction_type is None for r in net0.reaction_list):
         return False  # Leeds codes outside the table have no type to serialise (outside the domain)
+    edit = f.get("edit", "none")
+    if edit != "none":
+        labels.append(f"edited-{edit}")
+        if edit == "remove+reindex" and len(net0.reaction_list) >= 2:
+            net0.remove_reaction(0)
+        if edit in ("remove+reindex", "reindex"):
+            net0.reindex()
+        if edit == "change-coefficients":
+            for k, r in enumerate(net0.reaction_list):
+                r.alpha = 1.5e-10 * (k + 1)
+                r.temp_max = 1234.5
     d = tempfile.mkdtemp(prefix="vt-")
     try:
         p1, p2 = os.path.join(d, "a.naunet"), os.path.join(d, "b.naunet")
